@@ -25,24 +25,24 @@ namespace FAVerif.Census.C09
 open FAVerif.Census
 
 def audited : List Audited := [
-  ⟨⟨.moduleMutable, "algorithms.py", "definition", "_registry = {}", 0⟩, .registry⟩,
+  ⟨⟨.moduleMutable, "algorithms.py", "definition", "_registry = {...}", 0⟩, .registry⟩,
   ⟨⟨.stateMutation, "algorithms.py", "definition.__init__", "self._registry[domain] = {}", 0⟩, .registry⟩,
-  ⟨⟨.setCreate, "context.py", "Context.__init__", "self.parameters['using'] = set()", 0⟩, .perInstance⟩,
-  ⟨⟨.setCreate, "context.py", "Context._assume_same_dtype", "others = cache[a.key] = set()", 0⟩, .membershipOnly⟩,
+  ⟨⟨.setCreate, "context.py", "Context.__init__", "self.parameters['using'] = set(...)", 0⟩, .perInstance⟩,
+  ⟨⟨.setCreate, "context.py", "Context._assume_same_dtype", "others = cache[a.key] = set(...)", 0⟩, .membershipOnly⟩,
   ⟨⟨.setCreate, "context.py", "Context.dtype_index", "dtype_index = find_dtype_index(x.key, set())", 0⟩, .membershipOnly⟩,
   ⟨⟨.setIter, "context.py", "Context.dtype_index.find_dtype_index", "for y_key in same_dtype_cache.get(x_key, []):", 0⟩, .listedFinding⟩,
   ⟨⟨.namespaceIter, "context.py", "Context.__call__", "for (name, obj) in frame.f_locals.items():", 0⟩, .frameLocals⟩,
   ⟨⟨.namespaceIter, "context.py", "Context.__call__", "frame = sys._getframe(1)", 0⟩, .frameLocals⟩,
   ⟨⟨.mutableDefault, "context.py", "Context.__init__", "def __init__(... paths=[] ...)", 0⟩, .readOnlyDefault⟩,
-  ⟨⟨.setCreate, "expr.py", "<module>", "known_constant_names = set('\\neps, posinf, neginf, smallest, largest, smallest_subnormal, pi, unde...#a5ce3efa", 0⟩, .readOnlyTable⟩,
-  ⟨⟨.setCreate, "expr.py", "<module>", "known_expression_kinds = set('\\nsymbol, constant, apply, select, list, item, len,\\nnegative, posit...#f69508f4", 0⟩, .readOnlyTable⟩,
-  ⟨⟨.setCreate, "expr.py", "Expr.get_type", "kinds = set()", 0⟩, .membershipOnly⟩,
-  ⟨⟨.setCreate, "expr.py", "Expr.get_type", "params = set()", 0⟩, .membershipOnly⟩,
+  ⟨⟨.setCreate, "expr.py", "<module>", "known_constant_names = set(...)", 0⟩, .readOnlyTable⟩,
+  ⟨⟨.setCreate, "expr.py", "<module>", "known_expression_kinds = set(...)", 0⟩, .readOnlyTable⟩,
+  ⟨⟨.setCreate, "expr.py", "Expr.get_type", "kinds = set(...)", 0⟩, .membershipOnly⟩,
+  ⟨⟨.setCreate, "expr.py", "Expr.get_type", "params = set(...)", 0⟩, .membershipOnly⟩,
   ⟨⟨.setReduce, "expr.py", "Expr.get_type", "len(<set>) :: if len(kinds) == 1:", 0⟩, .reduceConsume⟩,
   ⟨⟨.setReduce, "expr.py", "Expr.get_type", "len(<set>) :: if len(params) == 1:", 0⟩, .reduceConsume⟩,
   ⟨⟨.setPop, "expr.py", "Expr.get_type", "kind = kinds.pop()", 0⟩, .singletonPop⟩,
-  ⟨⟨.moduleMutable, "expr.py", "<module>", "known_constant_names = set('\\neps, posinf, neginf, smallest, largest, smallest_subnormal, pi, unde...#a5ce3efa", 0⟩, .readOnlyTable⟩,
-  ⟨⟨.moduleMutable, "expr.py", "<module>", "known_expression_kinds = set('\\nsymbol, constant, apply, select, list, item, len,\\nnegative, posit...#f69508f4", 0⟩, .readOnlyTable⟩,
+  ⟨⟨.moduleMutable, "expr.py", "<module>", "known_constant_names = set(...)", 0⟩, .readOnlyTable⟩,
+  ⟨⟨.moduleMutable, "expr.py", "<module>", "known_expression_kinds = set(...)", 0⟩, .readOnlyTable⟩,
   ⟨⟨.mutableDefault, "expr.py", "make_symbol", "def make_symbol(... _tmp_counter=[0] ...)", 0⟩, .tmpCounter⟩,
   ⟨⟨.stateMutation, "expr.py", "make_symbol", "_tmp_counter[0] += 1", 0⟩, .tmpCounter⟩,
   ⟨⟨.dunderDef, "expr.py", "Expr.__eq__", "def __eq__(self, other):", 0⟩, .exprBuilder⟩,
@@ -54,49 +54,49 @@ def audited : List Audited := [
   ⟨⟨.setSorted, "rewrite.py", "op_collect", "row = sorted(set(row))", 0⟩, .sortedConsume⟩,
   ⟨⟨.setReduce, "rewrite.py", "op_collect", "len(<set>) :: while len(set([row[-1] if row else None for row in matrix])) == 1:", 0⟩, .reduceConsume⟩,
   ⟨⟨.setReduce, "rewrite.py", "op_collect", "len(<set>) :: while len(set([row[0] if row else None for row in matrix])) == 1:", 0⟩, .reduceConsume⟩,
-  ⟨⟨.moduleMutable, "rewrite.py", "<module>", "_any_relop_any = {('finite', 'finite'): (None, None, None, None, None, None), ('finite', 'positive...#6fb1fa8e", 0⟩, .readOnlyTable⟩,
-  ⟨⟨.moduleMutable, "rewrite.py", "<module>", "_constant_relop_any = {('posinf', 'positive'): (True, None, None, False, None, None), ('neginf', '...#f93ede25", 0⟩, .readOnlyTable⟩,
-  ⟨⟨.moduleMutable, "rewrite.py", "<module>", "_constant_relop_constant = {('posinf', 'posinf'): (True, False, True, False, True, False), ('posin...#c5213a1d", 0⟩, .readOnlyTable⟩,
+  ⟨⟨.moduleMutable, "rewrite.py", "<module>", "_any_relop_any = {...}", 0⟩, .readOnlyTable⟩,
+  ⟨⟨.moduleMutable, "rewrite.py", "<module>", "_constant_relop_any = {...}", 0⟩, .readOnlyTable⟩,
+  ⟨⟨.moduleMutable, "rewrite.py", "<module>", "_constant_relop_constant = {...}", 0⟩, .readOnlyTable⟩,
   ⟨⟨.keyOrder, "rewrite.py", "Rewriter._compare", "cmp x.key > y.key :: if x.key > y.key:", 0⟩, .keyOrderStructural⟩,
   ⟨⟨.keyOrder, "rewrite.py", "Rewriter.logical_and", "cmp x.key > y.key :: if x.key > y.key:", 0⟩, .keyOrderStructural⟩,
   ⟨⟨.keyOrder, "rewrite.py", "Rewriter.logical_or", "cmp x.key > y.key :: if x.key > y.key:", 0⟩, .keyOrderStructural⟩,
-  ⟨⟨.moduleMutable, "targets/__init__.py", "<module>", "__all__ = ['stablehlo', 'python', 'numpy', 'xla_client', 'cpp', 'symbolic', 'lax']", 0⟩, .readOnlyTable⟩,
-  ⟨⟨.setCreate, "targets/base.py", "PrinterBase.__init__", "self.defined_refs = set()", 0⟩, .membershipOnly⟩,
+  ⟨⟨.moduleMutable, "targets/__init__.py", "<module>", "__all__ = [...]", 0⟩, .readOnlyTable⟩,
+  ⟨⟨.setCreate, "targets/base.py", "PrinterBase.__init__", "self.defined_refs = set(...)", 0⟩, .membershipOnly⟩,
   ⟨⟨.watchedImport, "targets/cpp.py", "try_compile", "import subprocess", 0⟩, .notOnTextPath⟩,
   ⟨⟨.watchedImport, "targets/cpp.py", "try_compile", "import tempfile", 0⟩, .notOnTextPath⟩,
   ⟨⟨.watchedUse, "targets/cpp.py", "try_compile", "subprocess.PIPE :: p = subprocess.Popen(command, stdout=subprocess.PIPE, stderr=None, stdin=subpro...#a142bdb5", 0⟩, .notOnTextPath⟩,
   ⟨⟨.watchedUse, "targets/cpp.py", "try_compile", "subprocess.PIPE :: p = subprocess.Popen(command, stdout=subprocess.PIPE, stderr=None, stdin=subpro...#a142bdb5", 1⟩, .notOnTextPath⟩,
   ⟨⟨.watchedUse, "targets/cpp.py", "try_compile", "subprocess.Popen :: p = subprocess.Popen(command, stdout=subprocess.PIPE, stderr=None, stdin=subpr...#b5ebfd1f", 0⟩, .notOnTextPath⟩,
   ⟨⟨.watchedUse, "targets/cpp.py", "try_compile", "tempfile.mkstemp :: _, outfilename = tempfile.mkstemp()", 0⟩, .notOnTextPath⟩,
-  ⟨⟨.moduleMutable, "targets/cpp.py", "<module>", "constant_to_target = dict(smallest='std::numeric_limits<{type}>::min()', largest='std::numeric_lim...#5a12d882", 0⟩, .readOnlyTable⟩,
-  ⟨⟨.moduleMutable, "targets/cpp.py", "<module>", "kind_to_target = dict(absolute='std::abs({0})', negative='-({0})', positive='({0})', add='({0}) + ...#b7cb4937", 0⟩, .readOnlyTable⟩,
-  ⟨⟨.moduleMutable, "targets/cpp.py", "<module>", "trace_arguments = dict(square=[(':float32',), (':float64',), (':complex64',), (':complex128',)], a...#c73ac695", 0⟩, .readOnlyTable⟩,
-  ⟨⟨.moduleMutable, "targets/cpp.py", "Printer", "type_to_target = dict(integer8='int8_t', integer16='int16_t', integer32='int32_t', integer64='int6...#2259fbf1", 0⟩, .readOnlyTable⟩,
-  ⟨⟨.setCreate, "targets/lax.py", "Printer.init_arguments", "already_promoted = set()", 0⟩, .membershipOnly⟩,
-  ⟨⟨.moduleMutable, "targets/lax.py", "<module>", "constant_to_target = dict(smallest_subnormal='numpy.finfo({type}).smallest_subnormal', smallest='n...#e495caaf", 0⟩, .readOnlyTable⟩,
-  ⟨⟨.moduleMutable, "targets/lax.py", "<module>", "kind_to_target = dict(absolute='lax.abs({0})', negative='lax.neg({0})', positive='+({0})', add='la...#92f801a5", 0⟩, .readOnlyTable⟩,
-  ⟨⟨.moduleMutable, "targets/lax.py", "<module>", "trace_arguments = dict(absolute=[(':complex128',), (':complex64',)], asin_acos_kernel=[(':complex1...#66330c99", 0⟩, .readOnlyTable⟩,
-  ⟨⟨.moduleMutable, "targets/lax.py", "<module>", "type_to_target = dict(array='Array', integer8='numpy.int8', integer16='numpy.int16', integer32='nu...#6fd2aa39", 0⟩, .readOnlyTable⟩,
-  ⟨⟨.moduleMutable, "targets/numpy.py", "<module>", "constant_to_target = dict(smallest_subnormal='numpy.finfo({type}).smallest_subnormal', smallest='n...#e495caaf", 0⟩, .readOnlyTable⟩,
-  ⟨⟨.moduleMutable, "targets/numpy.py", "<module>", "kind_to_target = dict(absolute='numpy.abs({0})', negative='-({0})', positive='+({0})', add='({0}) ...#fc25a437", 0⟩, .readOnlyTable⟩,
-  ⟨⟨.moduleMutable, "targets/numpy.py", "<module>", "trace_arguments = dict(absolute=[(':complex128',), (':complex64',)], asin_acos_kernel=[(':complex1...#66330c99", 0⟩, .readOnlyTable⟩,
-  ⟨⟨.moduleMutable, "targets/numpy.py", "<module>", "type_to_target = dict(integer8='numpy.int8', integer16='numpy.int16', integer32='numpy.int32', int...#6df861f8", 0⟩, .readOnlyTable⟩,
-  ⟨⟨.moduleMutable, "targets/python.py", "<module>", "constant_to_target = dict(smallest='sys.float_info.min', largest='sys.float_info.max', posinf='mat...#7f95c09f", 0⟩, .readOnlyTable⟩,
-  ⟨⟨.moduleMutable, "targets/python.py", "<module>", "kind_to_target = dict(absolute='abs({0})', negative='-({0})', positive='+({0})', add='({0}) + ({1}...#a6fd0196", 0⟩, .readOnlyTable⟩,
-  ⟨⟨.moduleMutable, "targets/python.py", "<module>", "trace_arguments = dict(absolute=[(':complex',)], asin_acos_kernel=[(':complex',)], acos=[(':comple...#f1fcb14c", 0⟩, .readOnlyTable⟩,
-  ⟨⟨.moduleMutable, "targets/python.py", "<module>", "type_to_target = dict(integer='int', float='float', complex='complex', boolean='bool')", 0⟩, .readOnlyTable⟩,
-  ⟨⟨.setCreate, "targets/stablehlo.py", "Printer.__init__", "self.defined_refs = set()", 0⟩, .membershipOnly⟩,
-  ⟨⟨.moduleMutable, "targets/stablehlo.py", "<module>", "constant_to_target = dict(largest='StableHLO_ConstantLikeMaxFiniteValue', smallest='StableHLO_Cons...#025bd509", 0⟩, .readOnlyTable⟩,
-  ⟨⟨.moduleMutable, "targets/stablehlo.py", "<module>", "kind_to_target = dict(absolute='StableHLO_AbsOp', negative='StableHLO_NegOp', positive='StableHLO_...#ea6e4277", 0⟩, .readOnlyTable⟩,
-  ⟨⟨.moduleMutable, "targets/stablehlo.py", "<module>", "trace_arguments = dict(absolute=[(':complex',)], asin_acos_kernel=[(':complex',)], acos=[(':float'...#e5863b1b", 0⟩, .readOnlyTable⟩,
-  ⟨⟨.moduleMutable, "targets/symbolic.py", "<module>", "constant_to_target = dict(smallest='smallest', largest='largest', posinf='inf', neginf='-inf', pi=...#cbf94786", 0⟩, .readOnlyTable⟩,
-  ⟨⟨.moduleMutable, "targets/symbolic.py", "<module>", "kind_to_target = dict(absolute='abs({0})', negative='-({0})', positive='+({0})', add='({0}) + ({1}...#a756a01b", 0⟩, .readOnlyTable⟩,
-  ⟨⟨.moduleMutable, "targets/symbolic.py", "<module>", "trace_arguments = dict()", 0⟩, .readOnlyTable⟩,
-  ⟨⟨.moduleMutable, "targets/symbolic.py", "<module>", "type_to_target = dict(integer='int', float='float', complex='complex', boolean='bool', float32='float32')", 0⟩, .readOnlyTable⟩,
-  ⟨⟨.moduleMutable, "targets/xla_client.py", "<module>", "constant_to_target = dict()", 0⟩, .readOnlyTable⟩,
-  ⟨⟨.moduleMutable, "targets/xla_client.py", "<module>", "kind_to_target = dict(absolute='Abs({0})', negative='Neg({0})', positive='({0})', add='Add({0}, {1...#91263ef0", 0⟩, .readOnlyTable⟩,
-  ⟨⟨.moduleMutable, "targets/xla_client.py", "<module>", "trace_arguments = dict(absolute=[(':complex',)], hypot=[(':float', ':float')], complex_acos=[(':co...#dbcee934", 0⟩, .readOnlyTable⟩,
-  ⟨⟨.moduleMutable, "targets/xla_client.py", "Printer", "type_to_target = dict(float='XlaOp', complex='XlaOp', boolean='XlaOp', type='XlaOp')", 0⟩, .readOnlyTable⟩,
+  ⟨⟨.moduleMutable, "targets/cpp.py", "<module>", "constant_to_target = dict(...)", 0⟩, .readOnlyTable⟩,
+  ⟨⟨.moduleMutable, "targets/cpp.py", "<module>", "kind_to_target = dict(...)", 0⟩, .readOnlyTable⟩,
+  ⟨⟨.moduleMutable, "targets/cpp.py", "<module>", "trace_arguments = dict(...)", 0⟩, .readOnlyTable⟩,
+  ⟨⟨.moduleMutable, "targets/cpp.py", "Printer", "type_to_target = dict(...)", 0⟩, .readOnlyTable⟩,
+  ⟨⟨.setCreate, "targets/lax.py", "Printer.init_arguments", "already_promoted = set(...)", 0⟩, .membershipOnly⟩,
+  ⟨⟨.moduleMutable, "targets/lax.py", "<module>", "constant_to_target = dict(...)", 0⟩, .readOnlyTable⟩,
+  ⟨⟨.moduleMutable, "targets/lax.py", "<module>", "kind_to_target = dict(...)", 0⟩, .readOnlyTable⟩,
+  ⟨⟨.moduleMutable, "targets/lax.py", "<module>", "trace_arguments = dict(...)", 0⟩, .readOnlyTable⟩,
+  ⟨⟨.moduleMutable, "targets/lax.py", "<module>", "type_to_target = dict(...)", 0⟩, .readOnlyTable⟩,
+  ⟨⟨.moduleMutable, "targets/numpy.py", "<module>", "constant_to_target = dict(...)", 0⟩, .readOnlyTable⟩,
+  ⟨⟨.moduleMutable, "targets/numpy.py", "<module>", "kind_to_target = dict(...)", 0⟩, .readOnlyTable⟩,
+  ⟨⟨.moduleMutable, "targets/numpy.py", "<module>", "trace_arguments = dict(...)", 0⟩, .readOnlyTable⟩,
+  ⟨⟨.moduleMutable, "targets/numpy.py", "<module>", "type_to_target = dict(...)", 0⟩, .readOnlyTable⟩,
+  ⟨⟨.moduleMutable, "targets/python.py", "<module>", "constant_to_target = dict(...)", 0⟩, .readOnlyTable⟩,
+  ⟨⟨.moduleMutable, "targets/python.py", "<module>", "kind_to_target = dict(...)", 0⟩, .readOnlyTable⟩,
+  ⟨⟨.moduleMutable, "targets/python.py", "<module>", "trace_arguments = dict(...)", 0⟩, .readOnlyTable⟩,
+  ⟨⟨.moduleMutable, "targets/python.py", "<module>", "type_to_target = dict(...)", 0⟩, .readOnlyTable⟩,
+  ⟨⟨.setCreate, "targets/stablehlo.py", "Printer.__init__", "self.defined_refs = set(...)", 0⟩, .membershipOnly⟩,
+  ⟨⟨.moduleMutable, "targets/stablehlo.py", "<module>", "constant_to_target = dict(...)", 0⟩, .readOnlyTable⟩,
+  ⟨⟨.moduleMutable, "targets/stablehlo.py", "<module>", "kind_to_target = dict(...)", 0⟩, .readOnlyTable⟩,
+  ⟨⟨.moduleMutable, "targets/stablehlo.py", "<module>", "trace_arguments = dict(...)", 0⟩, .readOnlyTable⟩,
+  ⟨⟨.moduleMutable, "targets/symbolic.py", "<module>", "constant_to_target = dict(...)", 0⟩, .readOnlyTable⟩,
+  ⟨⟨.moduleMutable, "targets/symbolic.py", "<module>", "kind_to_target = dict(...)", 0⟩, .readOnlyTable⟩,
+  ⟨⟨.moduleMutable, "targets/symbolic.py", "<module>", "trace_arguments = dict(...)", 0⟩, .readOnlyTable⟩,
+  ⟨⟨.moduleMutable, "targets/symbolic.py", "<module>", "type_to_target = dict(...)", 0⟩, .readOnlyTable⟩,
+  ⟨⟨.moduleMutable, "targets/xla_client.py", "<module>", "constant_to_target = dict(...)", 0⟩, .readOnlyTable⟩,
+  ⟨⟨.moduleMutable, "targets/xla_client.py", "<module>", "kind_to_target = dict(...)", 0⟩, .readOnlyTable⟩,
+  ⟨⟨.moduleMutable, "targets/xla_client.py", "<module>", "trace_arguments = dict(...)", 0⟩, .readOnlyTable⟩,
+  ⟨⟨.moduleMutable, "targets/xla_client.py", "Printer", "type_to_target = dict(...)", 0⟩, .readOnlyTable⟩,
   ⟨⟨.hashRef, "typesystem.py", "Type.__hash__", "return hash((self.kind, self.param))", 0⟩, .structuralHash⟩,
   ⟨⟨.dunderDef, "typesystem.py", "Type.__eq__", "def __eq__(self, other):", 0⟩, .structuralEq⟩,
   ⟨⟨.dunderDef, "typesystem.py", "Type.__hash__", "def __hash__(self):", 0⟩, .structuralHash⟩,
